@@ -32,7 +32,11 @@ St0(cfg) == [cfg |-> cfg, claim |-> Absent, lastClaim |-> Absent, node |-> Absen
              queue |-> <<>>,                         \* pod name -> [uid, dl] as projected after the last reconcile
              qU |-> <<>>,                            \* ghost: pod uid -> earliest deadline it was queued under (this process)
              ctl |-> "-",                            \* controller whose reconcile is running
-             view |-> Absent]                        \* the informer copy an eviction-queue reconcile was handed
+             view |-> Absent,                        \* the informer copy an eviction-queue reconcile was handed
+             \* what the running node-termination reconcile read: pods / volume attachments of the node at its last
+             \* list call (only known when reads are logged; otherwise the store at the instant of the write is used,
+             \* which is the same thing when no foreign step interleaves)
+             obsP |-> [valid |-> FALSE, set |-> {}], obsV |-> [valid |-> FALSE, set |-> {}]]
 
 TraceInit == l = 1 /\ st = St0(Absent) /\ viol = <<>> /\ ntr = 0 /\ done = FALSE
 
@@ -78,11 +82,14 @@ ClaimChecks(pre, post) ==
 
 \* the guard applies to a managed Node that has (exactly one) NodeClaim
 HasClaim(n) == st.claim.exists /\ n.providerID # "-" /\ st.claim.providerID = n.providerID
+\* check-then-act: a pod or volume that changes between the controller's list and its patch is not judged against it
 NodeChecks(pre, post) ==
     IF ~(Karpenter /\ FinalizerRemoved(pre, post) /\ HasClaim(pre)) THEN <<>> ELSE
-    Chk(G_C09_NodeFinalizer(pre, st.claim, PodsOn(pre.name), VasOn(pre.name), st.cfg.podPV, st.notFound, Ev.t, SA),
-        "G_C09_NodeFinalizer",
-        NodeFinalizerSig(pre, st.claim, PodsOn(pre.name), VasOn(pre.name), st.cfg.podPV, st.notFound, Ev.t, SA))
+    LET pods == IF st.obsP.valid THEN st.obsP.set ELSE PodsOn(pre.name)
+        vas == IF st.obsV.valid THEN st.obsV.set ELSE VasOn(pre.name)
+    IN Chk(G_C09_NodeFinalizer(pre, st.claim, pods, vas, st.cfg.podPV, st.notFound, Ev.t, SA),
+           "G_C09_NodeFinalizer",
+           NodeFinalizerSig(pre, st.claim, pods, vas, st.cfg.podPV, st.notFound, Ev.t, SA))
 
 \* ---------------------------------------------------------------- C10
 PodPre == IF Ev.name \in DOMAIN st.pods THEN st.pods[Ev.name] ELSE Absent
@@ -157,26 +164,33 @@ TProv ==
                            !.notFound = IF nf THEN @ \cup {Ev.arg} ELSE @]
     /\ UNCHANGED viol
 
-TBegin == Ev.e = "Begin" /\ st' = [st EXCEPT !.ctl = Ev.controller, !.view = Ev.view] /\ UNCHANGED viol
+NoObs == [valid |-> FALSE, set |-> {}]
+TBegin == /\ Ev.e = "Begin" /\ UNCHANGED viol
+          /\ st' = [st EXCEPT !.ctl = Ev.controller, !.view = Ev.view, !.obsP = NoObs, !.obsV = NoObs]
+\* a logged read of the node termination controller: remember what it saw
+TRead == /\ Ev.e = "Read" /\ UNCHANGED viol
+         /\ LET mine == Ev.actor = "node.termination" /\ Ev.verb = "list" /\ Ev.err = "-" IN
+            st' = [st EXCEPT !.obsP = IF mine /\ Ev.kind = "Pod" THEN [valid |-> TRUE, set |-> PodsOn(st.cfg.node)] ELSE @,
+                             !.obsV = IF mine /\ Ev.kind = "VolumeAttachment" THEN [valid |-> TRUE, set |-> VasOn(st.cfg.node)] ELSE @]
 TEnd == /\ Ev.e = "End" /\ UNCHANGED st
         /\ viol' = viol \o Chk(~Ev.panic, IF Ev.controller = "eviction-queue" THEN "Inv_C10_NoPanic" ELSE "Inv_C09_NoPanic", Ev.controller)
 TMem ==
     /\ Ev.e = "Mem"
     /\ LET new == QFun(Ev.queue) IN
        /\ viol' = viol \o QueueChecks(st.queue, new)
-       /\ st' = [st EXCEPT !.queue = new, !.qU = QU(st.queue, new), !.ctl = "-", !.view = Absent]
+       /\ st' = [st EXCEPT !.queue = new, !.qU = QU(st.queue, new), !.ctl = "-", !.view = Absent, !.obsP = NoObs, !.obsV = NoObs]
 \* a restart loses the in-memory eviction queue (and the lifecycle launch cache)
 TRestart == /\ Ev.e = "Restart"
             /\ st' = [st EXCEPT !.queue = <<>>, !.qU = <<>>,
                                 !.lostPids = @ \cup {p \in st.created : ~(st.claim.exists /\ st.claim.providerID = p)}]
             /\ UNCHANGED viol
 \* Settled: outcome of the bounded-progress tail (evidence only: the statements of C09 / C10 are safety statements)
-TOther == Ev.e \in {"Tick", "Skip", "Read", "Settled"} /\ UNCHANGED <<st, viol>>
+TOther == Ev.e \in {"Tick", "Skip", "Settled"} /\ UNCHANGED <<st, viol>>
 
 TraceNext ==
     \/ /\ l <= Len(Trace) /\ l' = l + 1 /\ UNCHANGED done
        /\ \/ (Ev.e = "Cfg" /\ st' = St0(Ev) /\ ntr' = ntr + 1 /\ UNCHANGED viol)
-          \/ ((TApi \/ TEnv \/ TProv \/ TBegin \/ TEnd \/ TMem \/ TRestart \/ TOther) /\ UNCHANGED ntr)
+          \/ ((TApi \/ TEnv \/ TProv \/ TBegin \/ TEnd \/ TMem \/ TRestart \/ TRead \/ TOther) /\ UNCHANGED ntr)
     \/ /\ l = Len(Trace) + 1 /\ ~done /\ done' = TRUE
        /\ JsonSerialize(IOEnv.OUT, [viol |-> viol, consumed |-> l - 1, traces |-> ntr])
        /\ UNCHANGED <<l, st, viol, ntr>>
